@@ -50,10 +50,13 @@ def install_timedelta(interp):
     """timedelta(seconds=x): x rounded to a whole number of microseconds (|err| <= 0.5us, monotone)."""
 
     def timedelta(it, args, kwargs, node):
-        if list(kwargs) != ["seconds"] or args:
+        if set(kwargs) - {"seconds", "days"} or len(args) > 1:
             raise Unsupported("timedelta(...) form")
-        x = kwargs["seconds"]
-        return make_timedelta(it, rterm(x))
+        days = args[0] if args else kwargs.get("days", 0)
+        x = kwargs.get("seconds", 0)
+        if isinstance(days, (int, float)) and isinstance(x, (int, float)):
+            return TimeDelta(ops.rv(round((days * 86400 + x) * 10**6) / 10**6))
+        return make_timedelta(it, rterm(x) + rterm(days) * 86400)
 
     interp.ext_models["datetime.timedelta"] = timedelta
     trusted("datetime.timedelta",
